@@ -502,6 +502,8 @@ Fixpoint exec_stmt (run : runner) (hs : list helper) (g : state) (t : name) (fr 
       match eval fr e with
       | inr x => inr (f_out fr, x)
       | inl v =>
+          if negb (int_ok v) then inr (f_out fr, ERange)          (* the argument is stored in the int parameter d *)
+          else
           match nested_self_g run g t m v fr with
           | inr x => inr x
           | inl (fr1, z) => inl {| f_self := f_self fr1; f_arg := f_arg fr1; f_vars := f_vars fr1; f_statics := f_statics fr1;
@@ -537,7 +539,7 @@ Definition run_method_g (run : runner) (hs : list helper) : runner := fun fe t s
   | inl fr' => if m_void (fe_meth fe) then inl (fr', 0%Z)
                else match eval fr' (m_ret (fe_meth fe)) with
                     | inr x => inr (f_out fr', x)
-                    | inl z => inl (fr', z)
+                    | inl z => if int_ok z then inl (fr', z) else inr (f_out fr', ERange)   (* the result of an int method is an int *)
                     end
   end.
 
